@@ -5,7 +5,7 @@ strings, well-formed and malformed payloads), on a member that already holds dat
 answers every request (value or error) and stays responsive.  No Lean model for the handler bodies."""
 NO_MODEL = True
 HEADER = 3
-REQUIRED_SHAPES = ["entry_size_around_table_size", "skeleton_mutations", "malformed_raw_entry", "all_commands_covered", "numeric_extremes", "member_alive_checked"]
+REQUIRED_SHAPES = ["subscriber_mode_sequences", "entry_size_around_table_size", "skeleton_mutations", "malformed_raw_entry", "all_commands_covered", "numeric_extremes", "member_alive_checked"]
 
 NUM = [b"0", b"1", b"-1", b"6", b"7", b"100000", b"9223372036854775807", b"-9223372036854775808", b"18446744073709551615",
        b"99999999999999999999999", b"1.5", b"-0.5", b"NaN", b"abc", b""]
@@ -41,6 +41,8 @@ class Oracle:
                 cmd = " ".join(t if t else "''" for t in toks)[:160]
                 return "no reply to [%s]: %s" % (cmd, reply)
             return None
+        if f[0] == "c.rawseq":
+            return None if reply == "ok" else "after a sequence of commands over one connection the member does not answer: %s" % reply[:80]
         if reply.startswith("err:") or reply in ("bad-op", "no-cluster"):
             return "unexpected %r" % reply[:100]
         if f[0] == "c.get" and f[1] == "cli":
@@ -125,6 +127,22 @@ class Gen:
                     yield "c.rawcmd %d %s" % (r.randrange(2), " ".join(hx(t) for t in v))
             orc.hit("skeleton_mutations")
             yield "c.get cli 0 h %s" % hx(b"k2")
+        # what a connection remembers: subscriber mode.  Every short sequence of (un)subscriptions - held, not held, held by
+        # ANOTHER connection, the other kind, none, empty - and of commands that are not allowed in that mode, over one connection
+        yield "c.rawseq 1 %s | %s" % (" ".join(hx(t) for t in [b"subscribe", b"other"]), " ".join(hx(t) for t in [b"psubscribe", b"o*"]))
+        sub_cmds = [[b"subscribe", b"a"], [b"psubscribe", b"a*"], [b"subscribe", b"a", b"b"], [b"unsubscribe", b"a"], [b"unsubscribe", b"zz"],
+                    [b"unsubscribe", b"other"], [b"unsubscribe", b"a*"], [b"punsubscribe", b"a*"], [b"punsubscribe", b"a"], [b"punsubscribe", b"o*"],
+                    [b"punsubscribe", b"["], [b"unsubscribe"], [b"punsubscribe"], [b"unsubscribe", b""], [b"subscribe"], [b"psubscribe", b"["],
+                    [b"ping"], [b"ping", b"x", b"y"], [b"quit"], [b"dm.get", b"h", b"k1"], [b"publish", b"a", b"m"], [b"pubsub", b"numsub", b"a"],
+                    [b"nosuchcommand"], [b"subscribe", b"\xff\x00"], [b"unsubscribe", b"a", b"a"]]
+        first = [[b"subscribe", b"a"], [b"psubscribe", b"a*"], [b"subscribe", b"a", b"b"]]
+        for f0 in first:
+            for c1 in sub_cmds:
+                for c2 in (sub_cmds if self.tier != "quick" or r.random() < 0.25 else [r.choice(sub_cmds)]):
+                    seq = [f0, c1, c2]
+                    yield "c.rawseq %d %s" % (r.randrange(2), " | ".join(" ".join(hx(t) for t in c) for c in seq))
+            orc.hit("subscriber_mode_sequences")
+            yield "c.get cli 0 h %s" % hx(b"k1")
         # values whose entry (29 bytes of metadata + key + value) is just below, at and just above the table size (4096): stored
         # or refused with the documented error - an answer either way, and the member goes on serving
         for cmd in (b"dm.put", b"dm.getput"):
